@@ -16,30 +16,54 @@
 #include <stddef.h>
 #include <stdint.h>
 
-#define SPEC_SX_ISDIGIT(c)  ((c) >= '0' && (c) <= '9')
-#define SPEC_SX_ISLOWER(c)  ((c) >= 'a' && (c) <= 'z')
-#define SPEC_SX_ISUPPER(c)  ((c) >= 'A' && (c) <= 'Z')
-#define SPEC_SX_ISALPHA(c)  (SPEC_SX_ISLOWER(c) || SPEC_SX_ISUPPER(c))
-#define SPEC_SX_ISXDIGIT(c) (SPEC_SX_ISDIGIT(c) || ((c) >= 'a' && (c) <= 'f') || ((c) >= 'A' && (c) <= 'F'))
-#define SPEC_SX_ISSPACE(c)  ((c) == ' ' || ((c) >= '\t' && (c) <= '\r'))
-#define SPEC_SX_TOLOWER(c)  (SPEC_SX_ISUPPER(c) ? (c) - 'A' + 'a' : (c))
-#define SPEC_SX_TOUPPER(c)  (SPEC_SX_ISLOWER(c) ? (c) - 'a' + 'A' : (c))
-
-/* symbol constituents: letters and "+%|/_:;.!?$&=*<>~" start a symbol,
+/* ---- character classes, readable form (ASCII, "C" locale) ---------------
+ * symbol constituents: letters and "+%|/_:;.!?$&=*<>~" start a symbol,
  * digits and '-' may follow.  The NUL octet is not a constituent. */
-#define SPEC_SX_ISSYMPUNCT(c) ((c) == '+' || (c) == '%' || (c) == '|' || (c) == '/' || (c) == '_' \
+#define SPEC_SX_REF_ISDIGIT(c)  ((c) >= '0' && (c) <= '9')
+#define SPEC_SX_REF_ISLOWER(c)  ((c) >= 'a' && (c) <= 'z')
+#define SPEC_SX_REF_ISUPPER(c)  ((c) >= 'A' && (c) <= 'Z')
+#define SPEC_SX_REF_ISALPHA(c)  (SPEC_SX_REF_ISLOWER(c) || SPEC_SX_REF_ISUPPER(c))
+#define SPEC_SX_REF_ISXDIGIT(c) (SPEC_SX_REF_ISDIGIT(c) || ((c) >= 'a' && (c) <= 'f') || ((c) >= 'A' && (c) <= 'F'))
+#define SPEC_SX_REF_ISSPACE(c)  ((c) == ' ' || ((c) >= '\t' && (c) <= '\r'))
+#define SPEC_SX_REF_TOLOWER(c)  (SPEC_SX_REF_ISUPPER(c) ? (c) - 'A' + 'a' : (c))
+#define SPEC_SX_REF_TOUPPER(c)  (SPEC_SX_REF_ISLOWER(c) ? (c) - 'a' + 'A' : (c))
+#define SPEC_SX_REF_ISSYMPUNCT(c) ((c) == '+' || (c) == '%' || (c) == '|' || (c) == '/' || (c) == '_' \
   || (c) == ':' || (c) == ';' || (c) == '.' || (c) == '!' || (c) == '?' || (c) == '$' || (c) == '&' \
   || (c) == '=' || (c) == '*' || (c) == '<' || (c) == '>' || (c) == '~')
-#define SPEC_SX_ISSYMINIT(c) (SPEC_SX_ISALPHA(c) || SPEC_SX_ISSYMPUNCT(c))
-#define SPEC_SX_ISSYMCH(c)   (SPEC_SX_ISSYMINIT(c) || SPEC_SX_ISDIGIT(c) || (c) == '-')
-#define SPEC_SX_ISDELIM(c)   ((c) == '(' || (c) == ')' || SPEC_SX_ISSPACE(c))
-
+#define SPEC_SX_REF_ISSYMINIT(c) (SPEC_SX_REF_ISALPHA(c) || SPEC_SX_REF_ISSYMPUNCT(c))
+#define SPEC_SX_REF_ISSYMCH(c)   (SPEC_SX_REF_ISSYMINIT(c) || SPEC_SX_REF_ISDIGIT(c) || (c) == '-')
+#define SPEC_SX_REF_ISDELIM(c)   ((c) == '(' || (c) == ')' || SPEC_SX_REF_ISSPACE(c))
 /* value of a digit character in either letter case; 0 for any other octet */
-#define SPEC_SX_DIGITVAL(c) ((uint64_t)((SPEC_SX_ISDIGIT(c) ? (c) - '0' \
+#define SPEC_SX_REF_DIGITVAL(c) ((uint64_t)(SPEC_SX_REF_ISDIGIT(c) ? (c) - '0' \
   : ((c) >= 'a' && (c) <= 'f') ? (c) - 'a' + 10 \
-  : ((c) >= 'A' && (c) <= 'F') ? (c) - 'A' + 10 : 0) & 15))
+  : ((c) >= 'A' && (c) <= 'F') ? (c) - 'A' + 10 : 0))
 
-/* token classes of looking_at(), same numbering as enum sx_what in sx.c */
+/* ---- the same classes as 128-bit membership masks ------------------------
+ * The contracts use these: the argument (usually a memory read s[...] that
+ * carries its own pointer checks) occurs 5 times instead of up to 60, and
+ * the text stays call-free for loop invariants.  Target `spec_charclasses`
+ * proves mask form == readable form for every int value. */
+#define SPEC_SX_INSET(c, lo, hi) \
+  ((c) >= 0 && (c) < 128 && ((((c) < 64 ? (uint64_t)(lo) >> ((c) & 63) : (uint64_t)(hi) >> ((c) & 63)) & 1) != 0))
+#define SPEC_SX_INSET_(c, m) SPEC_SX_INSET(c, m)
+#define SPEC_SX_M_DIGIT 0x03ff000000000000ull, 0x0000000000000000ull
+#define SPEC_SX_M_XDIGIT 0x03ff000000000000ull, 0x0000007e0000007eull
+#define SPEC_SX_M_SPACE 0x0000000100003e00ull, 0x0000000000000000ull
+#define SPEC_SX_M_SYMINIT 0xfc00cc7200000000ull, 0x57fffffe87fffffeull
+#define SPEC_SX_M_SYMCH 0xffffec7200000000ull, 0x57fffffe87fffffeull
+#define SPEC_SX_M_DELIM 0x0000030100003e00ull, 0x0000000000000000ull
+#define SPEC_SX_ISDIGIT(c)   SPEC_SX_INSET_(c, SPEC_SX_M_DIGIT)
+#define SPEC_SX_ISXDIGIT(c)  SPEC_SX_INSET_(c, SPEC_SX_M_XDIGIT)
+#define SPEC_SX_ISSPACE(c)   SPEC_SX_INSET_(c, SPEC_SX_M_SPACE)
+#define SPEC_SX_ISSYMINIT(c) SPEC_SX_INSET_(c, SPEC_SX_M_SYMINIT)
+#define SPEC_SX_ISSYMCH(c)   SPEC_SX_INSET_(c, SPEC_SX_M_SYMCH)
+#define SPEC_SX_ISDELIM(c)   SPEC_SX_INSET_(c, SPEC_SX_M_DELIM)
+/* '0'..'9' = 0x30.., 'A'.. = 0x41.., 'a'.. = 0x61..: low nibble, +9 for letters */
+#define SPEC_SX_DIGITVAL(c) \
+  ((uint64_t)(SPEC_SX_ISXDIGIT(c) ? ((c) & 15) + ((((c) & 64) != 0) ? 9 : 0) : 0))
+#define SX_ISBASEDIGIT(base, c) ((base) == 10 ? SPEC_SX_ISDIGIT(c) : SPEC_SX_ISXDIGIT(c))
+
+/* ---- token classes of looking_at(), same numbering as enum sx_what ------- */
 #define SPEC_SX_AT_UNKNOWN 0
 #define SPEC_SX_AT_SYMBOL 1
 #define SPEC_SX_AT_INT_DEC 2
@@ -48,15 +72,22 @@
 #define SPEC_SX_AT_CLOSE 5
 /* i < n is required.  A hex literal needs "#x" AND one hex digit inside the
  * input; nothing at or beyond s[n] is consulted. */
-#define SPEC_SX_LOOKING_AT(s, n, i) \
-  (((n) - (i) > 2 && (s)[i] == '#' && (s)[(i) + 1 < (n) ? (i) + 1 : (i)] == 'x' \
-     && SPEC_SX_ISXDIGIT((s)[(i) + 2 < (n) ? (i) + 2 : (i)])) ? SPEC_SX_AT_INT_HEX \
-   : (s)[i] == '(' ? SPEC_SX_AT_OPEN \
-   : (s)[i] == ')' ? SPEC_SX_AT_CLOSE \
-   : SPEC_SX_ISDIGIT((s)[i]) ? SPEC_SX_AT_INT_DEC \
-   : SPEC_SX_ISSYMINIT((s)[i]) ? SPEC_SX_AT_SYMBOL : SPEC_SX_AT_UNKNOWN)
+static inline int spec_sx_looking_at(const char *s, size_t n, size_t i)
+{
+  const char c0 = s[i];
+  if (n - i > 2 && c0 == '#') {
+    const char c1 = s[i + 1], c2 = s[i + 2];
+    if (c1 == 'x' && SPEC_SX_ISXDIGIT(c2)) return SPEC_SX_AT_INT_HEX;
+  }
+  if (c0 == '(') return SPEC_SX_AT_OPEN;
+  if (c0 == ')') return SPEC_SX_AT_CLOSE;
+  if (SPEC_SX_ISDIGIT(c0)) return SPEC_SX_AT_INT_DEC;
+  if (SPEC_SX_ISSYMINIT(c0)) return SPEC_SX_AT_SYMBOL;
+  return SPEC_SX_AT_UNKNOWN;
+}
 
-/* positional value of the digit run s[from..to) in base 10 or 16, modulo
+/* ---- values ---------------------------------------------------------------
+ * positional value of the digit run s[from..to) in base 10 or 16, modulo
  * 2^64: the digit k places from the right counts base^k (definition of
  * positional notation; powers as a literal table, 10^k mod 2^64) */
 #define SPEC_SX_VALUE_MAXDIGITS 24
@@ -70,7 +101,7 @@ static inline uint64_t spec_sx_value(const char *s, size_t from, size_t to, uint
 {
   uint64_t v = 0;
   for (size_t k = 0; k < to - from; k++)
-    v += spec_sx_pow(base, k) * SPEC_SX_DIGITVAL(s[to - 1 - k]);
+    v += spec_sx_pow(base, k) * SPEC_SX_REF_DIGITVAL(s[to - 1 - k]);
   return v;
 }
 /* the same value read most significant digit first (Horner) */
@@ -78,10 +109,8 @@ static inline uint64_t spec_sx_horner(const char *s, size_t from, size_t to, uin
 {
   uint64_t v = 0;
   for (size_t k = from; k < to; k++)
-    v = v * base + SPEC_SX_DIGITVAL(s[k]);
+    v = v * base + SPEC_SX_REF_DIGITVAL(s[k]);
   return v;
 }
-
-#define SX_ISBASEDIGIT(base, c) ((base) == 10 ? SPEC_SX_ISDIGIT(c) : SPEC_SX_ISXDIGIT(c))
 
 #endif
